@@ -344,6 +344,9 @@ pub struct RecPolicy {
 }
 
 impl RecPolicy {
+    pub fn generation(&self) -> usize {
+        self.generation
+    }
     pub fn new(spec: &PolSpec, generation: usize, log: Rc<RefCell<PolLog>>) -> RecPolicy {
         let (refuse_left, inner) = spec.build();
         RecPolicy {
